@@ -19,6 +19,7 @@
   model accepts it — the harness classifies that case separately), float conversion, inet_ntop.
 -/
 import Ipv8.C03.Types
+import Ipv8.C03.GenTables
 
 namespace Ipv8.C03
 open Ipv8
@@ -162,14 +163,20 @@ def unpackAt : Fmt → Bytes → Nat → Except Err (Val × Nat)
   | .varlen lw base, d, off => do
     let n ← readUint d off lw
     let e := off + lw + n * base
-    if e ≤ d.length then .ok (.bytes (slice d (off + lw) e), e) else .error .pack
+    if Gen.varlenChecked then
+      if e ≤ d.length then .ok (.bytes (slice d (off + lw) e), e) else .error .pack
+    else .ok (.bytes (slice d (off + lw) e), e)          -- no check in the source: truncating slice, end beyond the buffer
   | .utf8 lw base, d, off => do
     let n ← readUint d off lw
     let e := off + lw + n * base
-    if e ≤ d.length then
+    if Gen.varlenChecked then
+      if e ≤ d.length then
+        let s := slice d (off + lw) e
+        if utf8Valid s then .ok (.str s, e) else .error .utf8
+      else .error .pack
+    else
       let s := slice d (off + lw) e
       if utf8Valid s then .ok (.str s, e) else .error .utf8
-    else .error .pack
   | .ipv4, d, off => do
     let b ← readAt d off 6
     .ok (.addr 1 (b.take 4) (beDec (b.drop 4)), off + 6)
@@ -181,13 +188,21 @@ def unpackAt : Fmt → Bytes → Nat → Except Err (Val × Nat)
   | .array lw lenBE k itemBE, d, off => do
     let n ← readLen lenBE d off lw
     let e := off + lw + n * k.size
-    if e ≤ d.length then .ok (.arr (decodeElems k itemBE n (slice d (off + lw) e)), e) else .error .pack
+    if Gen.arrayChecked then
+      if e ≤ d.length then .ok (.arr (decodeElems k itemBE n (slice d (off + lw) e)), e) else .error .pack
+    else
+      let s := slice d (off + lw) e        -- no check: array.frombytes on the truncated slice (ValueError unless whole items)
+      if s.length % k.size = 0 then .ok (.arr (decodeElems k itemBE (s.length / k.size) s), e) else .error .pack
   | .nested fs, d, off => do
     let n ← readUint d off 2
-    if off + 2 + n ≤ d.length then
+    if Gen.nestedChecked then
+      if off + 2 + n ≤ d.length then
+        let (vs, _) ← unpackListAt fs (slice d (off + 2) (off + 2 + n)) 0
+        .ok (.record vs, off + 2 + n)
+      else .error .pack
+    else
       let (vs, _) ← unpackListAt fs (slice d (off + 2) (off + 2 + n)) 0
       .ok (.record vs, off + 2 + n)
-    else .error .pack
   | .tuple fs, d, off => do
     let (vs, o) ← unpackListAt fs d off
     .ok (.tuple vs, o)
